@@ -1183,6 +1183,13 @@ fn write_code<'a, 'b: 'a>(writer: &mut impl ClassWrite, code: &'b Code, pool: &m
 		})?;
 	}
 
+	for attribute in &code.attributes {
+		attribute_count += 1;
+		buffer.write_u16(pool.put_utf8(&attribute.name)?)?;
+		buffer.write_usize_as_u32(attribute.bytes.len()).with_context(|| anyhow!("unknown attribute {:?} is too large", attribute.name))?;
+		buffer.write_u8_slice(&attribute.bytes)?;
+	}
+
 	// Write the attribute count and then put the buffer containing the attributes.
 	writer.write_usize_as_u16(attribute_count).context("too many attributes on code")?; // TODO: improved message...
 	writer.write_u8_slice(&buffer)?;
